@@ -20,6 +20,10 @@ pub struct MemSource {
 	/// answer bbox streams from the map directly instead of the trait's default lookup loop over
 	/// every coordinate of the box (needed for sparse sets with huge level boxes)
 	pub fast_stream: bool,
+	/// lookups answer after a number of Pending polls that depends on the coordinate ((3x + y) % 4)
+	pub uneven: bool,
+	/// served through `PlainSource` by the pipeline factory: the box stream is the trait's own default
+	pub plain: bool,
 	/// environment answer: the source is not ready at once; every lookup / stream request first
 	/// returns Pending this many times (like a remote reader would)
 	pub yields: u8,
@@ -36,10 +40,18 @@ pub fn pyramid_of(tiles: &TileMap) -> TileBBoxPyramid {
 impl MemSource {
 	pub fn new(name: &str, tiles: TileMap, format: TileFormat, compression: TileCompression) -> MemSource {
 		let pyramid = pyramid_of(&tiles);
-		MemSource { name: name.to_string(), tiles, parameters: TilesReaderParameters::new(format, compression, pyramid), tilejson: TileJSON::default(), fast_stream: false, yields: 0 }
+		MemSource { name: name.to_string(), tiles, parameters: TilesReaderParameters::new(format, compression, pyramid), tilejson: TileJSON::default(), fast_stream: false, uneven: false, plain: false, yields: 0 }
 	}
 	pub fn with_pyramid(mut self, p: TileBBoxPyramid) -> MemSource {
 		self.parameters.bbox_pyramid = p;
+		self
+	}
+	pub fn with_uneven_yields(mut self) -> MemSource {
+		self.uneven = true;
+		self
+	}
+	pub fn as_plain(mut self) -> MemSource {
+		self.plain = true;
 		self
 	}
 	pub fn with_fast_stream(mut self) -> MemSource {
@@ -77,7 +89,8 @@ impl TilesReaderTrait for MemSource {
 		&self.tilejson
 	}
 	async fn get_tile_data(&self, coord: &TileCoord3) -> Result<Option<Blob>> {
-		for _ in 0..self.yields {
+		let n = self.yields as u32 + if self.uneven { (3 * coord.x + coord.y) % 4 } else { 0 };
+		for _ in 0..n {
 			tokio::task::yield_now().await;
 		}
 		Ok(self.tiles.get(&(coord.z, coord.x, coord.y)).map(|v| Blob::from(v.as_slice())))
